@@ -666,6 +666,11 @@ func definedOutside(v ssa.Value, l *ssaLoop) bool {
 					}
 					return okAll
 				}
+				// a field of an object handed in from outside, reloaded in the loop: invariant when the loop writes
+				// nothing at all (no store, no call other than length / bit-set style pure builtins)
+				if definedOutside(fa.X, l) && loopWritesNothing(l) {
+					return true
+				}
 			}
 		}
 	case *ssa.Convert:
@@ -675,6 +680,23 @@ func definedOutside(v ssa.Value, l *ssaLoop) bool {
 		return !l.Blocks[ins.Block()]
 	}
 	return false
+}
+
+// loopWritesNothing: no store, map update, send or call (other than builtins) in the loop.
+func loopWritesNothing(l *ssaLoop) bool {
+	for b := range l.Blocks {
+		for _, ins := range b.Instrs {
+			switch x := ins.(type) {
+			case *ssa.Store, *ssa.MapUpdate, *ssa.Send, *ssa.Go, *ssa.Defer:
+				return false
+			case *ssa.Call:
+				if _, isB := x.Common().Value.(*ssa.Builtin); !isB {
+					return false
+				}
+			}
+		}
+	}
+	return true
 }
 
 // stepOf: the net constant step of a header phi per iteration: +1 / -1 / 0 (unknown).
@@ -809,8 +831,10 @@ func searchNextLoop(c *Ctx, l *ssaLoop) (bool, string) {
 				break
 			}
 			if _, ok := indexLikeResult(c, call); !ok {
-				okAll = false
-				break
+				if _, okk := indexLikeResultKey(c, call); !okk {
+					okAll = false
+					break
+				}
 			}
 			from, ok := scanStartParam(c, call.Common().StaticCallee())
 			if !ok || from >= len(call.Common().Args) {
@@ -1134,7 +1158,7 @@ func (r *nnResult) transfer(st map[nnKey]bool, ins ssa.Instruction) {
 		// if this store wrote nil)
 		if _, isAlloc := x.Val.(*ssa.Alloc); !isAlloc {
 			for k2 := range st {
-				if k2.el == el && k2.base != fa.X {
+				if nnPlainEl(k2.el) == el && (k2.base != fa.X || k2.el != el) {
 					delete(st, k2)
 				}
 			}
@@ -1186,12 +1210,26 @@ func (r *nnResult) transfer(st map[nnKey]bool, ins ssa.Instruction) {
 			}
 		}
 		for k := range st {
-			if kill[k.el] {
+			if kill[nnPlainEl(k.el)] {
 				delete(st, k)
 			}
 		}
 	}
 }
+
+// A conditional fact "if the boolean φ is true, base.el is non-nil" is kept in the same state under the element name
+// "cond:<φ>:<el>" (withFragment := !exclude && u.fragment != nil … if withFragment { *u.fragment }): it is killed with
+// the component it talks about and becomes a plain fact on the true edge of a branch on φ.
+func nnPlainEl(el string) string {
+	if strings.HasPrefix(el, "cond:") {
+		if i := strings.Index(el[5:], ":"); i >= 0 {
+			return el[5+i+1:]
+		}
+	}
+	return el
+}
+
+func nnCondEl(phi *ssa.Phi, el string) string { return "cond:" + phi.Name() + ":" + el }
 
 // forwardsOverride: a small module function whose only mutating call is one BasicParser call whose state override is
 // one of the function's own parameters; returns that parameter's index.
@@ -1321,6 +1359,14 @@ func nonNilAnalysis(c *Ctx, f *ssa.Function) *nnResult {
 			}
 			if iff, ok := lastIf(b); ok {
 				for _, nf := range normFact(iff.Cond, succIdx == 0) {
+					if phi, isPhi := nf.Cond.(*ssa.Phi); isPhi && nf.Val {
+						pre := "cond:" + phi.Name() + ":"
+						for k := range st {
+							if strings.HasPrefix(k.el, pre) {
+								st[nnKey{k.base, strings.TrimPrefix(k.el, pre)}] = true
+							}
+						}
+					}
 					bo, ok := nf.Cond.(*ssa.BinOp)
 					if !ok || (bo.Op != token.EQL && bo.Op != token.NEQ) {
 						continue
@@ -1335,6 +1381,51 @@ func nonNilAnalysis(c *Ctx, f *ssa.Function) *nnResult {
 								if nullableUrlFields[el] && (bo.Op == token.NEQ) == nf.Val {
 									st[nnKey{fa.X, el}] = true
 								}
+							}
+						}
+					}
+				}
+			}
+			// merged booleans of the successor: what their being true will mean
+			if succIdx < len(b.Succs) {
+				succ := b.Succs[succIdx]
+				pi := -1
+				for i, pb := range succ.Preds {
+					if pb == b {
+						pi = i
+					}
+				}
+				for _, ins := range succ.Instrs {
+					phi, ok := ins.(*ssa.Phi)
+					if !ok {
+						break
+					}
+					if bt, ok := phi.Type().Underlying().(*types.Basic); !ok || bt.Kind() != types.Bool || pi < 0 {
+						continue
+					}
+					// targets named by the nil tests among the edges
+					var targets []nnKey
+					for _, e := range phi.Edges {
+						if k, ok := nnNilTestTarget(e); ok {
+							targets = append(targets, k)
+						}
+					}
+					ev := phi.Edges[pi]
+					if kb, isK := constBool(ev); isK && !kb {
+						for _, t := range targets {
+							st[nnKey{t.base, nnCondEl(phi, t.el)}] = true
+						}
+					} else if t, ok := nnNilTestTarget(ev); ok && st[t] {
+						// (the test's own load sits in b: the component is known non-nil on this edge exactly when the
+						// test came out true, which is when the merged boolean takes that value)
+						st[nnKey{t.base, nnCondEl(phi, t.el)}] = true
+					} else if t, ok := nnNilTestTarget(ev); ok {
+						st[nnKey{t.base, nnCondEl(phi, t.el)}] = true
+					} else if p2, isPhi := ev.(*ssa.Phi); isPhi {
+						pre := "cond:" + p2.Name() + ":"
+						for k := range st {
+							if strings.HasPrefix(k.el, pre) {
+								st[nnKey{k.base, nnCondEl(phi, strings.TrimPrefix(k.el, pre))}] = true
 							}
 						}
 					}
@@ -1390,6 +1481,28 @@ func nonNilAnalysis(c *Ctx, f *ssa.Function) *nnResult {
 		}
 		return r
 	}).(*nnResult)
+}
+
+// nnNilTestTarget: v is `base.el != nil` for a nullable component.
+func nnNilTestTarget(v ssa.Value) (nnKey, bool) {
+	bo, ok := v.(*ssa.BinOp)
+	if !ok || bo.Op != token.NEQ {
+		return nnKey{}, false
+	}
+	for _, pr := range [][2]ssa.Value{{bo.X, bo.Y}, {bo.Y, bo.X}} {
+		if !isNilConst(pr[1]) {
+			continue
+		}
+		if ld, ok := pr[0].(*ssa.UnOp); ok && ld.Op == token.MUL {
+			if fa, ok := ld.X.(*ssa.FieldAddr); ok {
+				el := fieldElem(fa.X.Type(), fa.Field)
+				if nullableUrlFields[el] {
+					return nnKey{fa.X, el}, true
+				}
+			}
+		}
+	}
+	return nnKey{}, false
 }
 
 // at returns the facts holding right before instruction idx of block b.
